@@ -2,6 +2,7 @@ import RxModel.StructCaptures
 import RxModel.StructOps
 import RxGen.Captures
 import RxProofs.Lemmas.StructFrame
+import RxProofs.Lemmas.StructCatalogue
 /-!
 # C04 — cold observables can be subscribed again with identical results
 
@@ -187,6 +188,50 @@ example :
       [.create 0, .create 1, .act 0 (.error "a"), .act 1 (.error "b"), .act 0 (.error "c"), .act 1 (.next 5), .act 1 (.error "d")]
     = [(0, .resubscribe), (1, .resubscribe), (0, .emit (.error "c")), (1, .emit (.next 5)), (1, .emit (.error "d"))] := by
   decide
+
+/-! ### The catalogue: every operator-handler record of the element-wise and aggregating families
+
+`Ops.Op` records (RxModel/OpsElem.lean, OpsSlice.lean — C05/C07/C08): empty, map, filter,
+filter_indexed, take, skip, take_while, take_while_indexed, skip_while, skip_while_indexed,
+zip_with_iterable, map_indexed, distinct, distinct_until_changed, pairwise, start_with,
+default_if_empty, ignore_elements, take_last, skip_last, take_last_buffer, element_at(_or_default),
+find, find_index, materialize, dematerialize, scan(seed), slice (stage pipelines), and any
+composition built from them.  `Agg.Op` records (RxModel/AggOps.lean — C06): map, filter, scan,
+reduce, count, sum, average, min, max, min_by, max_by, first(_or_default), last(_or_default),
+single(_or_default), some, all, contains, is_empty, to_list, to_set, to_dict and `⨾`-compositions.
+The theorems quantify over **every** record of these types. -/
+section catalogue
+open Struct.Catalogue
+
+/-- **catalogue_resubscribe_same (element-wise family).** For every `Ops.Op` record, prompt or lagging
+disposal, any number of subscriptions under any interleaving: a subscription created once and fed
+`evs` emits exactly what the family's own single-subscription semantics `Ops.Op.run` says. -/
+theorem catalogue_ops_resubscribe_same {α β : Type} (lag : Bool) (op : Ops.Op α β)
+    (acts : List (Act (Notif α))) (i : Nat) (evs : List (Notif α))
+    (hv : restrict i acts = none :: evs.map some) :
+    outputsOf i (runG (ofOps lag op) () [] acts) = Ops.visible (op.run lag evs) := by
+  rw [resubscribe_same (ofOps lag op) (ofOps_framed lag op) () acts i, hv]
+  exact ofOps_runI lag op evs
+
+/-- **catalogue_resubscribe_same (aggregating family).** Same for every `Agg.Op` record. -/
+theorem catalogue_agg_resubscribe_same {α β : Type} (lag : Bool) (op : Agg.Op α β)
+    (acts : List (Act (Notif α))) (i : Nat) (evs : List (Notif α))
+    (hv : restrict i acts = none :: evs.map some) :
+    outputsOf i (runG (ofAgg lag op) () [] acts) = op.out lag evs := by
+  rw [resubscribe_same (ofAgg lag op) (ofAgg_framed lag op) () acts i, hv]
+  exact ofAgg_runI lag op evs
+
+/-- the hypotheses are satisfiable and the statement is about real records: two overlapping
+subscriptions to `take(2)` and to `count()` -/
+example :
+    outputsOf 1 (runG (ofOps false (Ops.takeOp (α := Nat) 2)) () []
+      [.create 0, .act 0 (.next 7), .create 1, .act 1 (.next 1), .act 0 (.next 8), .act 1 (.next 2), .act 1 (.next 3)])
+    = [.next 1, .next 2, .completed] := by decide
+example :
+    outputsOf 0 (runG (ofAgg false (Agg.countAllO (α := Nat))) () []
+      [.create 0, .create 1, .act 0 (.next 7), .act 1 (.next 1), .act 0 (.next 8), .act 0 .completed])
+    = [.next 2, .completed] := by decide
+end catalogue
 
 /-! The row check is not vacuous: it rejects the shapes it is meant to reject. -/
 example : coldOk ⟨"operators/_x.py", "x_", "x_", "it", .oneshot, 1, some 3, false, true⟩ = false := by decide
